@@ -216,3 +216,31 @@ Example C01_ternary_fast_nonvacuous :
   exists r, if_then_else_faithful_fast A B C = Ok r /\ 3 <= size r.
 Proof. exact apply3_fast_example. Qed.
 Print Assumptions C01_ternary_fast_nonvacuous.
+
+(* ---- the explicit-stack loop of `ternary_apply`, modelled iteration by iteration (Model/Apply3Stack.v: one sstep3 = one
+   pass through the `while let Some(on_stack) = stack.last()` body over task TRIPLES, same store record), computes exactly
+   what the recursive order-faithful engine of Model/Apply3.v computes — for valid operands over the same variable count
+   and any table that answers on total inputs (no range condition on the four flips, no consistency of the table) ---- *)
+From BddVerif Require Model.Apply3Stack Proofs.Apply3Stack.
+
+Theorem C01_ternary_stack_machine_refines : forall A B C fa fb fc fo op,
+  wf A -> wf B -> wf C -> nvars A = nvars B -> nvars B = nvars C -> total3 op ->
+  Apply3Stack.apply3_stack A B C fa fb fc fo op = apply3 A B C fa fb fc fo op.
+Proof. exact Proofs.Apply3Stack.apply3_stack_eq. Qed.
+Print Assumptions C01_ternary_stack_machine_refines.
+
+(* hence the pointwise theorem holds of the stack machine verbatim *)
+Theorem C01_ternary_stack_machine_pointwise : forall A B C fa fb fc fo op,
+  wf A -> wf B -> wf C -> nvars A = nvars B -> nvars B = nvars C ->
+  (flip_ok (nvars A) fa && flip_ok (nvars A) fb && flip_ok (nvars A) fc && flip_ok (nvars A) fo = true) ->
+  total3 op -> consistent3 op ->
+  exists r, Apply3Stack.fused_ternary_flip_op_stack A B C fa fb fc fo op = Ok r /\ Canonical r /\ nvars r = nvars A /\
+    forall v, eval r v = conn3 op (eval A (oflip fa (oflip fo v))) (eval B (oflip fb (oflip fo v)))
+                                  (eval C (oflip fc (oflip fo v))).
+Proof. exact Proofs.Apply3Stack.fused_ternary_flip_op_stack_correct. Qed.
+Print Assumptions C01_ternary_stack_machine_pointwise.
+
+Theorem C01_ternary_stack_machine_if_then_else : forall A B C, wf A -> wf B -> wf C ->
+  Apply3Stack.if_then_else_stack A B C = if_then_else A B C.
+Proof. exact Proofs.Apply3Stack.if_then_else_stack_eq_model. Qed.
+Print Assumptions C01_ternary_stack_machine_if_then_else.
